@@ -52,6 +52,9 @@ class Discrete(AbstractSpace[Int[Array, ""], Bool[Array, " n"]]):
         if x.ndim != 0:
             return jnp.array(False)
         x = x.squeeze()
+        if jnp.issubdtype(x.dtype, jnp.integer) or jnp.issubdtype(x.dtype, jnp.bool_):
+            # compare in a dtype that can hold n (narrow integer types cannot)
+            x = x.astype(int)
 
         if ~jnp.array_equal(x, jnp.floor(x)):
             return jnp.array(False)
